@@ -98,6 +98,22 @@ def x_cell_lookup(x: int, y: int, z: int) -> bool:
     # the id function itself, called the way the world calls it
     if Env.discrete_grid_pos_to_id(x, y, w, z, h) != i:
         return hx.end(hx.fail("id differs from the row index"))
+    if not hx.P.get('numpy_coords'):
+        return hx.end(True)
+    # coordinates often come out of numpy (argwhere, unravel_index, rng.integers): numpy integers are coordinates too
+    import numpy as np
+    zero, far = np.int64(0), np.int64(max(w, h, d) + 3)
+    try:
+        r0 = env.get_cell(zero, zero, zero)
+    except Exception as e:
+        return hx.end(hx.fail("in-grid numpy-integer coordinates rejected", error=repr(e)))
+    if r0[1] != 0:
+        return hx.end(hx.fail("numpy-integer coordinates (0,0,0) gave another cell's row", row=r0[1]))
+    try:
+        env.get_cell(far, zero, zero)
+        return hx.end(hx.fail("out-of-grid numpy-integer coordinate accepted"))
+    except IndexError:
+        pass
     return hx.end(True)
 
 
@@ -139,6 +155,15 @@ def rows_follow_components(x: int, y: int, v0: int, v1: int) -> bool:
         if sorted(r3.keys()) != ["pos", "soil"] or r3["soil"] != v1 - i:
             return hx.end(hx.fail("row of a cell after a component was generated again under the same name",
                                   labels=list(r3.keys()), expected_soil=v1 - i))
+        # ... and a re-generation that is REJECTED (wrong length) leaves the row as it was
+        try:
+            a.add_cell_component("soil", [0] * (n + 1))
+            return hx.end(True)
+        except ValueError:
+            pass
+        r4 = a.get_cell(cx, cy, 0)
+        if sorted(r4.keys()) != ["pos", "soil"] or r4["soil"] != v1 - i:
+            return hx.end(hx.fail("row of a cell after a rejected re-generation of a component", labels=list(r4.keys())))
     return hx.end(True)
 
 
@@ -181,7 +206,7 @@ def obligations(tier):
           labels=("looked_up_twice",), timeout=600, encoded=enc[1:] + (Env.DiscreteWorld.add_cell_component, Env.DiscreteWorld.remove_cell_component)),
         X("id_alias", id_alias, labels=("called",), timeout=300, encoded=(Env.discreteGridPosToID,)),
         X("x_cell_lookup", x_cell_lookup, parts=[{"shape": s} for s in shapes] + [{"shape": [2, 2, 0], "alias": True}] +
-          [{"shape": [3, 0, 0], "cls": "line"}, {"shape": [1, 0, 0], "cls": "line"}, {"shape": [2, 3, 0], "cls": "grid"}, {"shape": [3, 1, 0], "cls": "grid"}],
+          [{"shape": [2, 3, 2], "numpy_coords": True}, {"shape": [3, 0, 0], "cls": "line", "numpy_coords": True}, {"shape": [3, 0, 0], "cls": "line"}, {"shape": [1, 0, 0], "cls": "line"}, {"shape": [2, 3, 0], "cls": "grid"}, {"shape": [3, 1, 0], "cls": "grid"}],
           labels=("inside", "outside"), timeout=300,
           group=4, encoded=enc[:2], bounds={"extents": "0..%d" % M, "coordinates": "all ints"}),
     ]
